@@ -182,6 +182,9 @@ type MachineObs struct {
 	AM       []memstore.CAccMeta `json:"am"`
 	// Calls: the store calls the runtime made
 	Calls []MCall `json:"calls"`
+	// Attempt: 1 for the first attempt of the operation, 2… for the retries (= number of
+	// BeginTX calls made on the root handle so far, failed ones included)
+	Attempt int `json:"attempt"`
 }
 
 // MCall: one store call of the runtime: GetBalances(q) or Accounts().GetOne(a).
@@ -378,7 +381,7 @@ func (p *recParser) Parse(script string) (ledgercontroller.NumscriptRuntime, err
 	rt, err := p.inner.Parse(script)
 	if err != nil {
 		p.env.machine = append(p.env.machine, MachineObs{Err: ClassifyErr(err), Postings: []memstore.CPosting{},
-			Meta: [][2]string{}, AM: []memstore.CAccMeta{}, Calls: []MCall{}})
+			Meta: [][2]string{}, AM: []memstore.CAccMeta{}, Calls: []MCall{}, Attempt: p.env.attempt()})
 		return nil, err
 	}
 	return &recRuntime{inner: rt, env: p.env}, nil
@@ -386,8 +389,9 @@ func (p *recParser) Parse(script string) (ledgercontroller.NumscriptRuntime, err
 
 func (r *recRuntime) Execute(ctx context.Context, store ledgercontroller.Store, vars map[string]string) (*ledgercontroller.NumscriptExecutionResult, error) {
 	before := len(r.env.B.Trace())
+	attempt := r.env.attempt()
 	res, err := r.inner.Execute(ctx, store, vars)
-	obs := MachineObs{Err: ClassifyErr(err), Postings: []memstore.CPosting{}, Meta: [][2]string{}, AM: []memstore.CAccMeta{}}
+	obs := MachineObs{Attempt: attempt, Err: ClassifyErr(err), Postings: []memstore.CPosting{}, Meta: [][2]string{}, AM: []memstore.CAccMeta{}}
 	if err == nil {
 		obs.Postings = memstore.CanonPostings(res.Postings)
 		obs.Meta = memstore.CanonMeta(res.Metadata)
@@ -454,6 +458,20 @@ func NewFacadeEnv(b *memstore.Mem, name string, strict bool) *Env {
 // BaseCtx: background context with a silent logger.
 func BaseCtx() context.Context {
 	return logging.ContextWithLogger(context.Background(), logging.NopZap())
+}
+
+// attempt: which attempt of the current operation is running.
+func (e *Env) attempt() int {
+	n := 0
+	for _, c := range e.B.Trace() {
+		if c.M == "BeginTX" && c.H == "root" {
+			n++
+		}
+	}
+	if n == 0 {
+		n = 1
+	}
+	return n
 }
 
 // canonical handle names per op: root, t1, t1.1, t2, …
